@@ -753,6 +753,35 @@ func cryptoStub(m *machine, fn *ssa.Function, name, pkg string) intrinsic {
 			return tuple{m.encode(itf.t, itf.v), iface{}}
 		}
 	}
+	// Unmarshal methods of repository types: faithful round trip of the exported
+	// fields carried by an encoding token (what the JSON / codec transport does
+	// to a block or frame between two nodes)
+	if strings.HasPrefix(pkg, modPath) && fn.Signature.Recv() != nil && fn.Name() == "Unmarshal" && fn.Signature.Params().Len() == 1 {
+		return func(m *machine, c *frame, fn *ssa.Function, a []value) value {
+			p, ok := fn.Signature.Recv().Type().Underlying().(*types.Pointer)
+			if !ok {
+				return declined{}
+			}
+			data, _ := a[1].([]value)
+			if len(data) != 1 {
+				unsupp("Unmarshal of bytes that are not an encoding token (real decoding is not modelled)")
+			}
+			o, ok := data[0].(*opaque)
+			if !ok || o.kind != "enc" {
+				unsupp("Unmarshal of bytes that are not an encoding token (real decoding is not modelled)")
+			}
+			tok := o.data.(*encToken)
+			if !types.Identical(p.Elem(), tok.typ) {
+				unsupp("Unmarshal into %v of an encoding of %v", p.Elem(), tok.typ)
+			}
+			dst, _ := a[0].(*value)
+			if dst == nil {
+				panic(targetPanic{rt: "invalid memory address or nil pointer dereference"})
+			}
+			store(tok.typ, dst, m.jsonProject(tok.typ, deepCopy(tok.val, 0), 0))
+			return iface{}
+		}
+	}
 	// methods Marshal / MarshalDB of repository types and encoding/json
 	if strings.HasPrefix(pkg, modPath) && fn.Signature.Recv() != nil && fn.Name() == "Marshal" && fn.Signature.Params().Len() == 0 {
 		return func(m *machine, c *frame, fn *ssa.Function, a []value) value {
